@@ -20,6 +20,11 @@ CHECKS = {
          "Partial claim (history clauses + the enumerated matrix): after every operation every program/FB/struct/array slot is compared with its declaration (VarDef.type_id resolved through the runtime's type registry, subranges and enums range-checked) and every global with its build-time tag; each mismatch is attributed to the operation and slot class that wrote it. The matrix is finite and enumerated completely; histories are sampled. Not claimed: all (declared, expression) pairs beyond the matrix shapes; debugger writes.",
          "Trusts Runtime::programs()/function_blocks()/registry() as the declaration source and ProgGen's naming scheme for attribution. The pervasive defect (write paths store the source tag) is recorded as open findings per mechanism; other mechanisms (I/O latch, FOR control, restart, retain load, initialisers, same-type writes, ranges) still alarm.",
          "DESIGN.md section 3 C03"),
+ "C05": ("exploration",
+         "deterministic simulation across OS processes: the same seeded project + input/clock/fault trace observed in the parent and N fresh child processes perturbed in hash seeds, ASLR, heap padding, stack size and environment; container bytes and per-cycle trace digests compared",
+         "For each seeded case (ProgGen project plus 6-30 bulk units - enum, struct, alias, interface, class, function, FB with method and reference - so that every compiler and encoder table holds many keys; trace of cycles with boundary inputs, budget faults, restarts) the STBC container is compiled twice per process and the trace is executed in the parent and in 5 (quick) / 11 (thorough) fresh child processes that differ only in what must not matter; all container byte strings and all per-cycle digests (cycle result, every variable value and tag, output image, runtime events) must be identical. Sampling, not proof; an order dependence between two keys escapes N+1 processes with probability 2^-N.",
+         "Trusts that process-level perturbation (fresh RandomState keys, ASLR, heap padding, stack size, environment) covers the nondeterminism sources the property names; the working directory is deliberately not varied.",
+         "DESIGN.md section 3 C05"),
  "C07": ("exploration",
          "deterministic simulation: seeded address maps x churning/fault-injecting logging drivers x debugger I/O writes and forces x faulted cycles, lock-step byte-level image model and call-phase oracle",
          "Seeded search over address maps (all 15 elementary types, X/B/W/D/L, overlapping/adjacent spans) and cycle histories with drivers that change their bytes on every read call; per cycle the merged driver/runtime event log must be reads-once -> program code -> writes-once, every program copy of every input must equal the independent decode of the bytes latched in that cycle, the published image must equal previous image + independent encodes (nothing outside addressed spans changes) and a faulted cycle must not deliver program-computed outputs. Sampling, not proof.",
